@@ -42,8 +42,11 @@ ASSUMPTIONS = [
     "'first'/'last'/'prio'/'rank' the result must equal the per-matrix 2-D results in member order (for first/last the "
     "literal reading - compress across the members - is accepted as well); 'min' / 'max' have no stack form and are checked on "
     "3-D input along each axis (numpy's reduction); other axes of 3-D input for the stack methods are undocumented",
-    "1-D input with axis=0 is only checked for 'shadow', 'min' and 'max'; for 'first'/'last'/'prio'/'rank' the "
-    "1-D/axis=0 behaviour is undocumented (identity resp. ranking of raw signed values) and left out",
+    "1-D input with axis=0 is checked for 'shadow', 'min' and 'max'; for 'prio'/'rank' the ordering followed on 1-D/axis=0 is "
+    "undocumented (the code ranks the raw signed values): any order-preserving dense ranking of the entries, or the one-row "
+    "2-D result, is accepted; 'first'/'last' on 1-D/axis=0 (identity) are left out",
+    "arrays stored in a narrow integer type (int8/int16/int32/unsigned) are outside the checked domain: the unchanged code "
+    "raises OverflowError for them in 'shadow' and 'min' along an axis (it writes 64-bit sentinels into the input's type)",
     "axis=None is checked where the docstring shows it (min, rank, shadow) and for 'prio' via the documented "
     "flattening rule",
     "'rank' ranks the signed 'prio' vector (docstring example gives the negative entry rank 0), so zeros are not "
@@ -302,6 +305,8 @@ def check_prio_rank(case, ev):
     if case.get("batch"):
         return check_batch(case, ev, ("prio", "rank"))
     nd = _ndim(a)
+    if nd == 1 and axis == 0:
+        return check_prio_rank_vector(case, ev)
     views = views_of(a, axis)
     ks = keys_of(views[0])
     n_out = len(ks)
@@ -323,6 +328,28 @@ def check_prio_rank(case, ev):
         raise Violation(f"rank axis={axis}: ranks {rk} are not dense from 0 or 1; prio vector {exp}; input {a}")
     cls, nontrivial = _key_classes([ks], views)
     ev.case(case, nontrivial, [f"shape={nd}d/axis={axis}"] + cls)
+
+
+def check_prio_rank_vector(case, ev):
+    """1-D input with an explicit axis=0: which ordering the dense ranking follows is not documented for this form (the code
+    ranks the raw signed values, the one-row 2-D form ranks by magnitude and keeps the sign). Either is accepted; what the
+    statement demands in every reading is an ORDER-PRESERVING DENSE ranking: equal entries equal ranks, ranks consecutive."""
+    pnd, np = _mods()
+    a = case["a"]
+    one_row = expected_prio(keys_of([a]))
+    for m in ("prio", "rank"):
+        R = call(pnd.integer_ndarray(a).ndint_compress, method=m, axis=0, what=f"ndint_compress({m}) on a vector, axis=0")
+        r = _as_ints(np, R, (len(a),), f"{m} on a vector", case)
+        if m == "prio" and r == one_row:
+            continue
+        for i in range(len(a)):
+            for j in range(len(a)):
+                if (a[i] < a[j]) != (r[i] < r[j]) or (a[i] == a[j]) != (r[i] == r[j]):
+                    raise Violation(f"{m} on a vector (axis=0): ranks {r} do not preserve the order of the entries {a} (positions {i},{j})")
+        distinct = sorted(set(r))
+        if distinct and (distinct[0] not in (0, 1) or distinct != list(range(distinct[0], distinct[0] + len(distinct)))):
+            raise Violation(f"{m} on a vector (axis=0): ranks {r} are not a dense ranking (consecutive from 0 or 1); input {a}")
+    ev.case(case, len(set(a)) >= 3 and len(set(a)) < len(a), ["shape=1d/axis=0"] + (["negative"] if any(x < 0 for x in a) else []) + (["tie"] if len(set(a)) < len(a) else []))
 
 
 def _first(line):
@@ -530,9 +557,11 @@ def _batch_case(draw):
 
 @st.composite
 def prio_rank_case(draw):
-    kind = draw(st.sampled_from(["1d/None", "2d/0", "2d/0", "2d/1", "2d/1", "2d/None", "3d/0"]))
+    kind = draw(st.sampled_from(["1d/None", "1d/0", "2d/0", "2d/0", "2d/1", "2d/1", "2d/None", "3d/0"]))
     if kind == "1d/None":
         return {"a": draw(_vector()), "axis": None}
+    if kind == "1d/0":
+        return {"a": draw(_vector()), "axis": 0}
     if kind == "3d/0":
         return draw(_batch_case())
     nr, nc = _dims(draw)
